@@ -270,5 +270,38 @@ int main(int argc, char **argv) {
         }
         if (pi == 20) vf::sample("{\"population\":" + vf::jstr(pdesc) + ",\"checks\":\"other process RW, same process RO/Overwrite, every stale call throws, bytes unchanged\"}");
     }
+    // ================= (c) release after a ReadOnly session =================
+    // a ReadOnly session in which writes were (correctly) refused and whose handles outlive close() must release the file too
+    for (int variant = 0; variant < 4; variant++) {
+        long cid = caseno++;
+        if (!vf::take_case(cid)) continue;
+        bool refused_write = variant & 1, keep_handles = variant & 2;
+        std::string vdesc = std::string("ReadOnly session") + (refused_write ? " with refused setters" : "") + (keep_handles ? ", handles kept past close()" : "");
+        vf::case_desc(vdesc + ": file must be released");
+        std::string work = vf::scratch_file("ro_rel.h5");
+        ops::copy_file(r1, work);
+        Held h;
+        {
+            File f = File::open(work, FileMode::ReadOnly);
+            std::string want = obs::render(obs::observe(f));
+            if (keep_handles) vf::guarded([&] { for (int k = 0; k < NK; k++) grab(f, k, h); });
+            if (refused_write) {
+                Block b = f.getBlock("b1");
+                vf::guarded([&] { b.type("zz"); }); vf::guarded([&] { b.definition("zz"); }); vf::guarded([&] { b.getDataArray("a1").label("zz"); });
+                vf::guarded([&] { b.getDataArray("a1").getDimension(1).asSampledDimension().samplingInterval(3.0); }); vf::guarded([&] { f.getSection("x1").getProperty("p1").unit("s"); });
+                vf::guarded([&] { b.getTag("t1").position({9.0}); }); vf::guarded([&] { b.createDataArray("late", "t", DataType::Double, NDSize({1})); });
+            }
+            f.close();
+            std::string got;
+            int rc = run_other(work, "RW", &got);
+            vf::count("release_checks");
+            if (rc != 0) vf::violation("C11|close after a " + vdesc + "|another process cannot open the file ReadWrite", got.substr(0, 200));
+            else if (got != want) vf::violation("C11|close after a " + vdesc + "|content seen by another process differs", "", obs::diff(want, got));
+            std::string exc = vf::guarded([&] { File g = File::open(work, FileMode::ReadWrite); g.getBlock("b1").definition("after"); g.close(); });
+            if (!exc.empty()) vf::violation("C11|close after a " + vdesc + "|same process cannot reopen ReadWrite", exc);
+            ops::copy_file(r1, vf::scratch_file("ro_rel2.h5"));
+            vf::distinct("outcomes", "ro-release|" + std::to_string(variant) + "|" + (rc == 0 && exc.empty() ? "released" : "held"));
+        }
+    }
     return vf::finish();
 }
